@@ -63,6 +63,22 @@ func c09ProcProgram2(rng *gen.Rng, i int) (string, bool) {
 		}
 	}
 	mayReject := false
+	if transform && rng.Chance(1, 3) {
+		// every built-in of the replacer under every operator, against another built-in, the match, a capture, a text
+		// and a number, in both orders: whatever the checker makes of their types, what it lets through must run
+		bis := []string{"startOffset", "endOffset", "lineNumber", "columnNumber", "totalMatches", "filename", "value", "matchNumber", "matchLength", "match"}
+		bi := proc.EVar{Name: bis[rng.Intn(len(bis))]}
+		others := []proc.Expr{proc.EVar{Name: bis[rng.Intn(len(bis))]}, proc.EVar{Name: "match"}, proc.EVar{Name: "cap"}, proc.EStr{V: "b"}, proc.EStr{V: "3"}, proc.ENum{V: 3}, proc.EBool{V: true}}
+		e := proc.Expr(proc.EBin{Op: binOps[rng.Intn(len(binOps))], L: bi, R: others[rng.Intn(len(others))]})
+		if rng.Bool() {
+			e = proc.EBin{Op: binOps[rng.Intn(len(binOps))], L: others[rng.Intn(len(others))], R: bi}
+		}
+		if rng.Chance(1, 4) {
+			e = proc.EUn{Op: unOps[rng.Intn(3)], X: bi}
+		}
+		ss = append([]proc.Stmt{proc.SSet{Name: "bi1", X: e}, proc.SDebug{X: proc.EBin{Op: "+", L: proc.EStr{V: ""}, R: proc.EVar{Name: "bi1"}}}}, ss...)
+		mayReject = true
+	}
 	if rng.Chance(1, 4) {
 		// a debug statement over an arbitrary (often ill-typed) expression: rejected at compile time or harmless at run time
 		ss = append([]proc.Stmt{proc.SDebug{X: pg.anyExpr(2)}}, ss...)
